@@ -1517,9 +1517,35 @@ static int parse_loop_header(struct scanner_s *scanner, cif_container_tp *contai
                 u_strncpy((*next_namep)->string, token_value, token_length);
                 (*next_namep)->string[token_length] = 0;
 
-                /* check for data name duplication */
-                switch (result = ((container == NULL) ? CIF_NOSUCH_ITEM
-                            : cif_container_get_item_loop(container, (*next_namep)->string, NULL))) {
+                /* check for data name duplication, within this loop header ... */
+                result = CIF_NOSUCH_ITEM;
+                if (container != NULL) {
+                    UChar *this_norm = NULL;
+
+                    if (cif_normalize((*next_namep)->string, -1, &this_norm) == CIF_OK) {
+                        string_element_tp *earlier;
+
+                        for (earlier = *name_list_head; earlier != *next_namep; earlier = earlier->next) {
+                            UChar *earlier_norm = NULL;
+
+                            if ((earlier->string != NULL)
+                                    && (cif_normalize(earlier->string, -1, &earlier_norm) == CIF_OK)) {
+                                int same = (u_strcmp(this_norm, earlier_norm) == 0);
+
+                                free(earlier_norm);
+                                if (same) {
+                                    result = CIF_OK;
+                                    break;
+                                }
+                            }
+                        }
+                        free(this_norm);
+                    }
+                }
+
+                /* ... and among the items already in the container */
+                switch ((result == CIF_OK) ? result : (result = ((container == NULL) ? CIF_NOSUCH_ITEM
+                            : cif_container_get_item_loop(container, (*next_namep)->string, NULL)))) {
                     case CIF_NOSUCH_ITEM:
                         /* the expected case */
                         break;
